@@ -386,7 +386,8 @@ def r4_limit_writers(ctx, rule):
 
 
 def rules(tier):
-    return [('C09.R1', r1_single_stdout_writer), ('C09.R2', r2_pairing), ('C09.R3', r3_threading), ('C09.R4', r4_limit_writers)]
+    return [('C09.R1', r1_single_stdout_writer), ('C09.R2', r2_pairing), ('C09.R3', r3_threading), ('C09.R4', r4_limit_writers),
+            ('C09.R5', lambda c, r: __import__('sa.props.c04', fromlist=['x']).r12_output_point_total(c, r))]
 
 
 META = {
